@@ -193,78 +193,132 @@ Fixpoint peel_chain (ls : list layer) (parties : list (list N)) (w : wire) : res
 Inductive act := AAdd | ARemove | AOther.
 Inductive ures := RSuccess | RServerError.
 
-(* keys and DIDs are the strings of the messages, named by numbers (the store compares whole strings) *)
+(* A recipient key as the messages name it.  What "the same key" means is the CODE's notion: handleKeylistUpdate
+   and handleForward both use dataKey(id) = "route-" + id on the whole string, so two notations are the same key
+   exactly when they are the same string.  The notations are kept structured so that related-but-different keys
+   are first-class: did:key = multibase(multicodec ++ key bytes): the same bytes under another multicodec (an
+   Ed25519 and an X25519 key over the same 32 bytes), two EC points sharing X (y names the other coordinate / the
+   sign byte of the compressed point), the raw base58 notation of the same bytes (legacy agents), and every other
+   string (DID URLs, a key with a '#fragment' appended, case variants, prefixes), named by a number. *)
+Inductive rkey :=
+| RDidKey (codec x y : N)
+| RB58 (x : N)
+| RStr (n : N).
+
+Definition rkey_eqb (a b : rkey) : bool :=
+  match a, b with
+  | RDidKey c x y, RDidKey c' x' y' => (c =? c') && (x =? x') && (y =? y')
+  | RB58 x, RB58 x' => x =? x'
+  | RStr n, RStr n' => n =? n'
+  | _, _ => false
+  end.
+
+(* store keys: strings as lists of numbers *)
+Fixpoint skey_eqb (a b : list N) : bool :=
+  match a, b with
+  | [], [] => true
+  | x :: r, y :: t => (x =? y) && skey_eqb r t
+  | _, _ => false
+  end.
+
+(* dataKey as found: the prefix "route-" (0) and the notation, whole *)
+Definition data_key (k : rkey) : list N :=
+  0 :: match k with
+       | RDidKey c x y => [1; c; x; y]
+       | RB58 x => [2; x]
+       | RStr n => [3; n]
+       end.
+
+(* a normalising dataKey (NOT the code's; kept as the refuted alternative): a did:key is stored under the base58 of
+   its X bytes, as kmsdidkey.GetBase58PubKeyFromDIDKey computes it — multicodec and Y are dropped *)
+Definition data_key_xonly (k : rkey) : list N :=
+  match k with
+  | RDidKey _ x _ => data_key (RB58 x)
+  | _ => data_key k
+  end.
+
 Inductive rop :=
-| RUpdate (client : N) (ups : list (act * N)) (fput : option nat) (send_ok : bool)
+| RUpdate (client : N) (ups : list (act * rkey)) (fput : option nat) (send_ok : bool)
     (* fput = Some k: the k-th store Put of this call fails *)
-| RForward (to : N) (m : N) (send_ok : bool) (fget : bool).
+| RForward (to : rkey) (m : N) (send_ok : bool) (fget : bool).
     (* send_ok: the outbound transport accepts the relay; fget: the store Get fails *)
 
 Inductive rout :=
-| OResp (client : N) (entries : list (N * act * ures)) (sent : bool)   (* keylist-update-response handed to SendToDID *)
+| OResp (client : N) (entries : list (rkey * act * ures)) (sent : bool)   (* keylist-update-response handed to SendToDID *)
 | ORelay (did : N) (m : N)      (* relayed: outbound Forward to the destination of [did] succeeded *)
 | OHeld (did : N) (m : N)       (* Forward failed: AddMessage (m, did) on the pickup service *)
 | ODrop.                        (* error, nothing handed to anybody *)
 
-Definition rstate := list (N * N).   (* key -> registrant DID; Put overwrites: newest first *)
+Definition rstate := list (list N * N).   (* store key -> registrant DID; Put overwrites: newest first *)
 
-Fixpoint route_get (s : rstate) (k : N) : option N :=
+Fixpoint route_get (s : rstate) (k : list N) : option N :=
   match s with
   | [] => None
-  | (k', d) :: r => if k =? k' then Some d else route_get r k
+  | (k', d) :: r => if skey_eqb k k' then Some d else route_get r k
   end.
 
 Definition fails_put (f : option nat) (i : nat) : bool :=
   match f with Some k => Nat.eqb k i | None => false end.
 
+Section Store.
+(* the function from a key notation to the store key *)
+Variable dk : rkey -> list N.
+
 (* the loop of handleKeylistUpdate; i counts the Puts of this call *)
-Fixpoint apply_updates (s : rstate) (client : N) (ups : list (act * N)) (f : option nat) (i : nat)
-  : rstate * list (N * act * ures) :=
+Fixpoint apply_updates_g (s : rstate) (client : N) (ups : list (act * rkey)) (f : option nat) (i : nat)
+  : rstate * list (rkey * act * ures) :=
   match ups with
   | [] => (s, [])
   | (AAdd, k) :: r =>
       if fails_put f i then
-        let '(s', es) := apply_updates s client r f (S i) in (s', (k, AAdd, RServerError) :: es)
+        let '(s', es) := apply_updates_g s client r f (S i) in (s', (k, AAdd, RServerError) :: es)
       else
-        let '(s', es) := apply_updates ((k, client) :: s) client r f (S i) in (s', (k, AAdd, RSuccess) :: es)
+        let '(s', es) := apply_updates_g ((dk k, client) :: s) client r f (S i) in (s', (k, AAdd, RSuccess) :: es)
   | (ARemove, k) :: r =>
-      let '(s', es) := apply_updates s client r f i in (s', (k, ARemove, RServerError) :: es)
-  | (AOther, _) :: r => apply_updates s client r f i
+      let '(s', es) := apply_updates_g s client r f i in (s', (k, ARemove, RServerError) :: es)
+  | (AOther, _) :: r => apply_updates_g s client r f i
   end.
 
-Definition rstep (s : rstate) (o : rop) : rstate * rout :=
+Definition rstep_g (s : rstate) (o : rop) : rstate * rout :=
   match o with
   | RUpdate client ups f ok =>
-      let '(s', es) := apply_updates s client ups f 0 in (s', OResp client es ok)
+      let '(s', es) := apply_updates_g s client ups f 0 in (s', OResp client es ok)
   | RForward to m ok fget =>
       if fget then (s, ODrop) else
-      match route_get s to with
+      match route_get s (dk to) with
       | None => (s, ODrop)
       | Some d => (s, if ok then ORelay d m else OHeld d m)
       end
   end.
 
-Fixpoint rrun (s : rstate) (ops : list rop) : rstate * list rout :=
+Fixpoint rrun_g (s : rstate) (ops : list rop) : rstate * list rout :=
   match ops with
   | [] => (s, [])
-  | o :: r => let '(s1, x) := rstep s o in let '(s2, xs) := rrun s1 r in (s2, x :: xs)
+  | o :: r => let '(s1, x) := rstep_g s o in let '(s2, xs) := rrun_g s1 r in (s2, x :: xs)
   end.
+End Store.
 
-(* ---- what the property talks about, computed from the history alone (not from the store) ---- *)
+(* the code *)
+Definition apply_updates := apply_updates_g data_key.
+Definition rstep := rstep_g data_key.
+Definition rrun := rrun_g data_key.
+
+(* ---- what the property talks about, computed from the history alone (not from the store): keys are compared as
+   the notations they are ---- *)
 
 (* registrant of key k after this keylist update, given the registrant before *)
-Fixpoint reg_updates (cur : option N) (client : N) (ups : list (act * N)) (f : option nat) (i : nat) (k : N) : option N :=
+Fixpoint reg_updates (cur : option N) (client : N) (ups : list (act * rkey)) (f : option nat) (i : nat) (k : rkey) : option N :=
   match ups with
   | [] => cur
   | (AAdd, k') :: r =>
       if fails_put f i then reg_updates cur client r f (S i) k
-      else reg_updates (if k =? k' then Some client else cur) client r f (S i) k
+      else reg_updates (if rkey_eqb k k' then Some client else cur) client r f (S i) k
   | (ARemove, _) :: r => reg_updates cur client r f i k
   | (AOther, _) :: r => reg_updates cur client r f i k
   end.
 
 (* the agent whose (most recent) successful registration of k precedes the end of the history *)
-Fixpoint registrant_from (cur : option N) (h : list rop) (k : N) : option N :=
+Fixpoint registrant_from (cur : option N) (h : list rop) (k : rkey) : option N :=
   match h with
   | [] => cur
   | RUpdate client ups f _ :: r => registrant_from (reg_updates cur client ups f 0 k) r k
@@ -293,4 +347,5 @@ Fixpoint route_exact_from (cur_hist : list rop) (ops : list rop) (outs : list ro
        end) && route_exact_from (cur_hist ++ [o]) r xs
   | _, _ => false
   end.
-Definition route_exact_b (ops : list rop) : bool := route_exact_from [] ops (snd (rrun [] ops)).
+Definition route_exact_g (dk : rkey -> list N) (ops : list rop) : bool := route_exact_from [] ops (snd (rrun_g dk [] ops)).
+Definition route_exact_b := route_exact_g data_key.
